@@ -627,7 +627,12 @@ impl<T: Storage> RaftCore<T> {
             || m.get_msg_type() == MessageType::MsgRequestVoteResponse
             || m.get_msg_type() == MessageType::MsgRequestPreVoteResponse
         {
-            if m.term == 0 {
+            // The one exception is a rejected pre-vote from a node that is still at term 0
+            // (it rejects because of its higher priority): it has no term to report, and
+            // the pre-candidate counts the rejection like any other.
+            let reject_at_term_zero =
+                m.get_msg_type() == MessageType::MsgRequestPreVoteResponse && m.reject;
+            if m.term == 0 && !reject_at_term_zero {
                 // All {pre-,}campaign messages need to have the term set when
                 // sending.
                 // - MsgVote: m.Term is the term the node is campaigning for,
